@@ -650,7 +650,7 @@ def judge(case, o, acc):
     # every other file keeps its bytes
     if judged_any or not sel:
         for p in sorted(set(before) | set(after)):
-            if any(p == fp for fp, _ in sel):
+            if not args.stdin and any(p == fp for fp, _ in sel):
                 continue
             if before.get(p) != after.get(p):
                 report("untouched", f"C15:other-file-changed:{fl}", f"{p} is not a target but its bytes changed; argv {case['argv']}")
